@@ -937,3 +937,109 @@ Proof.
   - intros e E. rewrite E in H1. exact H1.
   - intros E. rewrite E in H2. cbn in H2. apply H2; reflexivity.
 Qed.
+
+(* ================================================================ F. the footer and the aggregate table *)
+Lemma insert_year_sorted y l : StronglySorted Z.lt l -> StronglySorted Z.lt (insert_year y l).
+Proof.
+  induction l as [|h r IH]; intros Hs; cbn [insert_year].
+  - constructor; constructor.
+  - inversion Hs as [|h' r' Hr Hh]; subst.
+    destruct (Z.eqb_spec y h) as [->|Hne]; [exact Hs|].
+    destruct (Z.ltb_spec y h) as [Hlt|Hge].
+    + constructor; [exact Hs|]. constructor; [exact Hlt|].
+      apply Forall_forall. intros x Hx. rewrite Forall_forall in Hh. specialize (Hh x Hx). lia.
+    + constructor; [apply IH, Hr|]. apply Forall_forall. intros x Hx.
+      apply insert_year_in in Hx as [->|Hx]; [lia|]. rewrite Forall_forall in Hh. apply Hh, Hx.
+Qed.
+
+Lemma years_sorted_sorted g : StronglySorted Z.lt (years_sorted g).
+Proof.
+  unfold years_sorted. induction (map fst (g_years g)) as [|h r IH]; cbn [fold_right]; [constructor|].
+  apply insert_year_sorted, IH.
+Qed.
+
+Lemma year_values_spec A full g ys yv :
+  year_values A full g ys = Ok yv ->
+  Forall2 (fun y p => plus_minus A full (year_val y (g_years g)) false = Ok p) ys yv.
+Proof.
+  revert yv. induction ys as [|y ys IH]; intros yv H; cbn [year_values] in H.
+  - inversion H; constructor.
+  - bind_as H as v Ev. bind_as H as p Ep. bind_as H as rest Er. inversion H; subst.
+    constructor; [|apply IH; reflexivity].
+    unfold year_val. destruct (zlookup y (g_years g)); [|discriminate]. inversion Ev; subst. exact Ep.
+Qed.
+
+(* the footer: "Total" first, then the years of the gains record in ascending
+   order, each exactly once; the figures are the record's total and yearly
+   totals (which C06_security_totals proves to be the sums of the rows) *)
+Theorem footer_is_gains A full cur ds g tb :
+  render_table A full cur ds g = Ok tb ->
+  tb_labels tb = LTotal :: map LYear (years_sorted g) /\
+  StronglySorted Z.lt (years_sorted g) /\
+  (forall y, In y (years_sorted g) <-> In y (map fst (g_years g))) /\
+  exists total yv,
+    tb_values tb = total :: yv /\
+    plus_minus A full (g_total g) false = Ok total /\
+    Forall2 (fun y p => plus_minus A full (year_val y (g_years g)) false = Ok p) (years_sorted g) yv.
+Proof.
+  unfold render_table. intros H. bind_as H as st Es. bind_as H as yv Ey. bind_as H as t Et.
+  inversion H; subst; clear H. cbn [tb_labels tb_values].
+  split; [reflexivity|]. split; [apply years_sorted_sorted|]. split; [apply years_sorted_in|].
+  exists t, yv. split; [reflexivity|]. split; [first [exact Et | reflexivity]|]. apply year_values_spec, Ey.
+Qed.
+
+Theorem aggregate_is_gains A full g rows :
+  render_aggregate A full g = Ok rows ->
+  exists total yv,
+    rows = combine (map LYear (years_sorted g)) yv ++ [(LSince, total)] /\
+    length yv = length (years_sorted g) /\
+    plus_minus A full (g_total g) false = Ok total /\
+    Forall2 (fun y p => plus_minus A full (year_val y (g_years g)) false = Ok p) (years_sorted g) yv.
+Proof.
+  unfold render_aggregate. intros H. bind_as H as yv Ey. bind_as H as t Et. inversion H; subst; clear H.
+  exists t, yv. split; [reflexivity|]. apply year_values_spec in Ey.
+  split; [|split; [first [exact Et | reflexivity] | exact Ey]].
+  clear Et. induction Ey; cbn [length]; [reflexivity | rewrite IHEy; reflexivity].
+Qed.
+
+(* the figure shown by plus_minus_dollar in exact arithmetic: "-$" and the
+   magnitude for a negative value, else the value *)
+Definition pm_value (full : bool) (v : Qc) (show_plus : bool) : pm :=
+  if Qcltb v 0 then {| pm_sign := SNeg; pm_amt := curr_str full (- v) |}
+  else {| pm_sign := if show_plus then SPlus else SNone; pm_amt := curr_str full v |}.
+
+Lemma plus_minus_exact full v sp : plus_minus exact full v sp = Ok (pm_value full v sp).
+Proof.
+  unfold plus_minus, pm_value. destruct (Qcltb v 0); [|reflexivity].
+  cbn [a_mul exact bind]. do 3 f_equal. ring.
+Qed.
+
+Lemma Forall2_pm_exact full (f : Z -> Qc) ys yv :
+  Forall2 (fun y p => plus_minus exact full (f y) false = Ok p) ys yv ->
+  yv = map (fun y => pm_value full (f y) false) ys.
+Proof.
+  induction 1 as [|y p ys yv Hp _ IH]; [reflexivity|]. cbn [map].
+  rewrite plus_minus_exact in Hp. inversion Hp; subst. reflexivity.
+Qed.
+
+(* exact arithmetic, gains computed from the same deltas: the footer shows
+   the sum of the capital gains of the rows and, per settlement year, the sum
+   of the gains of the rows settled in that year *)
+Theorem footer_shows_row_sums full cur ds g tb :
+  security_gains exact gains0 (gain_rows ds) = Ok g ->
+  render_table exact full cur ds g = Ok tb ->
+  tb_labels tb = LTotal :: map LYear (years_sorted g) /\
+  tb_values tb = pm_value full (sum_all (gain_rows ds)) false
+                   :: map (fun y => pm_value full (sum_year y (gain_rows ds)) false) (years_sorted g).
+Proof.
+  intros Hg Ht. destruct (security_totals _ _ Hg) as (Htot & Hyear & _).
+  destruct (footer_is_gains _ _ _ _ _ _ Ht) as (Hl & _ & _ & total & yv & Hv & Hp & Hy).
+  split; [exact Hl|]. rewrite Hv. rewrite plus_minus_exact in Hp. inversion Hp; subst. rewrite Htot.
+  f_equal. apply Forall2_pm_exact in Hy. rewrite Hy. apply map_ext. intros y. rewrite Hyear. reflexivity.
+Qed.
+
+(* what the code does with a negative figure that rounds to zero: "-$0.00" *)
+Lemma negative_zero_is_shown :
+  plus_minus exact false (Qcfrac (-1) 1000) false
+  = Ok {| pm_sign := SNeg; pm_amt := AText [48%N; 46%N; 48%N; 48%N] |}.
+Proof. vm_compute. reflexivity. Qed.
